@@ -64,7 +64,7 @@ Section Rt.
       destruct Hd as [Hp Hids]. rewrite Hp. cbn [andb]. apply forallb_forall. intros c Hc.
       apply in_map_iff in Hc. destruct Hc as (p & <- & Hp'). apply idok_in. exact (Hids p Hp').
     - (* newtype *)
-      destruct c; try contradiction. rewrite (idok_in t Hd). reflexivity.
+      destruct c; try contradiction; rewrite (idok_in t Hd); reflexivity.
     - (* option *)
       destruct Hd as [Hid Hno]. rewrite (idok_in t Hid). rewrite andb_true_r.
       unfold get_det. destruct (get T t) as [e'|] eqn:E; [|reflexivity]. cbn [option_map].
